@@ -431,7 +431,9 @@ func (r Wrapper) introspectAccessToken(input string) (*ExtendedTokenIntrospectio
 	}
 
 	if token.InputDescriptorConstraintIdMap != nil {
-		for _, reserved := range []string{"iss", "sub", "exp", "iat", "active", "client_id", "scope"} {
+		// all members of the (extended) introspection response are reserved: the marshaller writes additional
+		// properties last, so any of them would be overwritten by a credential-derived claim with the same name.
+		for _, reserved := range []string{"iss", "sub", "exp", "iat", "active", "client_id", "scope", "cnf", "aud", "vps", "presentation_definitions", "presentation_submissions"} {
 			if _, isReserved := token.InputDescriptorConstraintIdMap[reserved]; isReserved {
 				return nil, fmt.Errorf("IntrospectAccessToken: InputDescriptorConstraintIdMap contains reserved claim name: %s", reserved)
 			}
